@@ -261,6 +261,7 @@ static void run_history(const char *dir, long hno, char **lines, long *lnos, lon
             int32 f = Hopen(fname, DFACC_READ, 0);
             if (f == FAIL) { printf(" fail\n"); continue; }
             static char out[390000]; long o = 0; int n = 0, first = 1, bad = 0;
+            out[0] = 0;
             for (; n < 400; n++) {
                 int32 l = lab ? DFANgetfidlen(f, first) : DFANgetfdslen(f, first);
                 if (l < 0) break;
